@@ -298,7 +298,7 @@ def run(ctx):
     progm = ctx.program("MAX")
     if progm.has_fn("minijinja::compiler::codegen::take_span_stack_buffer"):
         check_buffer_pools(ctx, progm, prefix="C14.F7")
-    from ..brackets import Analysis, State, GEN
+    from ..brackets import Analysis, State, GEN, balanced_in_context
     viol = []
 
     def _rep(rule, inst, ok, detail, where):
@@ -306,12 +306,17 @@ def run(ctx):
             viol.append((rule, inst, detail, where))
     an = Analysis(progm, _rep)
     nsp = 0
-    for g in sorted(k for k, f in progm.fns.items() if k.startswith(GEN + "::") and f.kind != "closure"):
+    gens_ = sorted((k for k, f in progm.fns.items() if k.startswith(GEN + "::") and f.kind != "closure"),
+                   key=lambda k: (not progm.fn(k).is_pub, k))
+    for g in gens_:
+        an.summary(g)
+    for g in sorted(gens_):
         s_ = an.summary(g)
         nm = g.split("::")[-1]
         if s_ is not None and (nm.startswith("compile_") or nm == "finish"):
             nsp += 1
-            ctx.ob("C14.F7.construct-leaves-no-span-behind", nm, s_.c.get("spans", 0) == 0,
+            ok_, how_ = balanced_in_context(an, progm, g, lambda st: st.c.get("spans", 0) == 0)
+            ctx.ob("C14.F7.construct-leaves-no-span-behind", nm, ok_,
                    "%s leaves the span stack %+d deep: the stale span (a byte range) is attached to later instructions on the "
                    "same line and - through the pooled buffer - can reach another template" % (nm, s_.c.get("spans", 0)),
                    progm.fn(g).loc)
